@@ -206,7 +206,7 @@ func c19CallAll(conn *grpc.ClientConn, acct string, pub []byte, epoch uint64, ge
 // C19 calls every RPC of every registered service on a real daemon with every kind of caller credential.
 func C19(cfg Cfg) int {
 	run := evid.New("C19", cfg.Tier, cfg.Seed, "exploration")
-	run.Rule = "a real dirk daemon (child process, TLS material generated at run time) in two configurations (CA configured; CA entry absent); all 16 methods of the 5 registered gRPC services, each with a request that succeeds for a permitted caller, x caller credentials {plaintext, TLS without client certificate, self-signed certificate with a permitted name, certificate from another authority with a permitted name and with a peer's name, valid certificate of a permitted client, valid certificate of an unpermitted client, valid certificate whose DNS SAN (not CN) names a permitted client, valid unpermitted leaf followed by an unverified certificate carrying a permitted name, expired certificate, server-only certificate}; " +
+	run.Rule = "a real dirk daemon (child process, TLS material generated at run time) in two configurations (CA configured; CA entry absent); all 16 methods of the 5 registered gRPC services, each with a request that succeeds for a permitted caller, x caller credentials {plaintext, TLS without client certificate, self-signed certificate with a permitted name, certificate from another authority with a permitted name and with a peer's name, valid certificate of a permitted client, valid certificate of an unpermitted client, valid certificate whose DNS SAN (not CN) names a permitted client, valid unpermitted leaf followed by an unverified certificate carrying a permitted name, expired / not-yet-valid certificate (from the authority, self-signed, from another authority), server-only certificate}; client certificates are force-sent (GetClientCertificate) so that the server, not the client library, decides; " +
 		"callers without a certificate from the configured authority must obtain no signature, account data, key or SUCCEEDED state and leave slashing state and wallets untouched; accepted callers must get exactly what the permission table gives their certificate's subject common name; distinct = (configuration, caller kind, method, outcome) cells"
 	run.Assume = []string{"loopback TCP stands in for the network", "state effects are read from the daemon's storage and wallet directories after it has stopped"}
 	ca, err := rig.NewCA("verif-ca")
@@ -228,7 +228,7 @@ func c19Config(run *evid.Run, cfg Cfg, ca, rogue *rig.CA, ci int, noCA bool) {
 	dir := cfg.Dir(fmt.Sprintf("c19-%d", ci))
 	port := rig.FreePort("127.0.0.1")
 	accounts := []string{}
-	for i := 0; i < 14; i++ {
+	for i := 0; i < 20; i++ {
 		accounts = append(accounts, fmt.Sprintf("acct%d", i))
 	}
 	// The host's trust store (what SystemCertPool returns inside the daemon) holds the OTHER authority: a daemon
@@ -271,6 +271,10 @@ func c19Config(run *evid.Run, cfg Cfg, ca, rogue *rig.CA, ci int, noCA bool) {
 	chainedPeer.Certificate = append(append([][]byte{}, unpermitted.Certificate...), selfSignedPeer.Certificate[0])
 	expired := issue(ca, rig.CertOpts{CN: "client1", NotBefore: time.Now().Add(-48 * time.Hour), NotAfter: time.Now().Add(-24 * time.Hour)})
 	serverOnly := issue(ca, rig.CertOpts{CN: "client1", ServerOnly: true})
+	notYet := issue(ca, rig.CertOpts{CN: "client1", NotBefore: time.Now().Add(24 * time.Hour), NotAfter: time.Now().Add(48 * time.Hour)})
+	selfSignedExpired := issue(nil, rig.CertOpts{CN: "client1", SelfSigned: true, NotBefore: time.Now().Add(-48 * time.Hour), NotAfter: time.Now().Add(-24 * time.Hour)})
+	selfSignedNotYet := issue(nil, rig.CertOpts{CN: "client1", SelfSigned: true, NotBefore: time.Now().Add(24 * time.Hour), NotAfter: time.Now().Add(48 * time.Hour)})
+	rogueExpired := issue(rogue, rig.CertOpts{CN: "client1", NotBefore: time.Now().Add(-48 * time.Hour), NotAfter: time.Now().Add(-24 * time.Hour)})
 	callers := []c19Caller{
 		{Kind: "plaintext"},
 		{Kind: "tls-no-client-cert", TLS: rig.ClientTLS(ca)},
@@ -284,6 +288,10 @@ func c19Config(run *evid.Run, cfg Cfg, ca, rogue *rig.CA, ci int, noCA bool) {
 		{Kind: "valid-unpermitted-plus-unverified-peer-name-in-chain", TLS: rig.ClientTLS(ca, chainedPeer), Accepted: true, Identity: "client9"},
 		{Kind: "expired-permitted", TLS: rig.ClientTLS(ca, expired)},
 		{Kind: "server-only-usage-permitted", TLS: rig.ClientTLS(ca, serverOnly)},
+		{Kind: "not-yet-valid-permitted", TLS: rig.ClientTLS(ca, notYet)},
+		{Kind: "self-signed-expired-permitted-name", TLS: rig.ClientTLS(ca, selfSignedExpired)},
+		{Kind: "self-signed-not-yet-valid-permitted-name", TLS: rig.ClientTLS(ca, selfSignedNotYet)},
+		{Kind: "other-authority-expired-permitted-name", TLS: rig.ClientTLS(ca, rogueExpired)},
 	}
 	signedAccts := map[int]bool{}
 	for k := range callers {
